@@ -156,6 +156,50 @@ def shrinkToFit (v : VecSt) : Res (VecSt × List Event) := memResize v v.len
 def shrinkTo (v : VecSt) (minCap : Nat) : Res (VecSt × List Event) :=
   memResize v (min v.cap (max v.len minCap))
 
+/-! ### Views (byte offsets are relative to the storage pointer) -/
+
+/-- `as_bytes` / `as_bytes_mut`: (byte offset, byte length) -/
+def asBytes (v : VecSt) : Nat × Nat := (0, v.len * v.size)
+/-- `spare_bytes_mut`: (byte offset, byte length) -/
+def spareBytes (v : VecSt) : Nat × Nat := (v.len * v.size, (v.cap - v.len) * v.size)
+/-- typed `as_slice` / `as_mut_slice`: (byte offset, element count) -/
+def typedSlice (v : VecSt) : Nat × Nat := (0, v.len)
+/-- typed `spare_capacity_mut`: (byte offset, element count) -/
+def spareCapacity (v : VecSt) : Nat × Nat := (v.len * v.size, v.cap - v.len)
+
+/-! ### Raw parts (`AnyVec::into_raw_parts`, `RawParts::clone`, `AnyVec::from_raw_parts`) -/
+
+/-- `RawParts<M>`: the storage handle (here: the storage itself with its generation), and the
+plain-data fields -/
+structure RawParts where
+  bk : Backend
+  handleCells : Mem
+  handleGen : Nat
+  capacity : Nat
+  len : Nat
+  size : Nat
+  align : Nat
+  ty : Nat
+  hasDrop : Bool
+  cloneable : Bool
+  deriving Repr, DecidableEq
+
+/-- `into_raw_parts`: no destructor, no allocator call; every field read off the vector -/
+def intoRawParts (v : VecSt) : RawParts :=
+  { bk := v.bk, handleCells := v.cells, handleGen := v.gen, capacity := v.cap, len := v.len,
+    size := v.size, align := v.align, ty := v.ty, hasDrop := v.hasDrop, cloneable := v.cloneable }
+
+/-- `impl Clone for RawParts`: field by field -/
+def RawParts.clone (p : RawParts) : RawParts :=
+  { bk := p.bk, handleCells := p.handleCells, handleGen := p.handleGen, capacity := p.capacity,
+    len := p.len, size := p.size, align := p.align, ty := p.ty, hasDrop := p.hasDrop,
+    cloneable := p.cloneable }
+
+/-- `from_raw_parts` -/
+def fromRawParts (p : RawParts) : VecSt :=
+  { ty := p.ty, size := p.size, align := p.align, hasDrop := p.hasDrop, cloneable := p.cloneable,
+    bk := p.bk, cap := p.capacity, cells := p.handleCells, len := p.len, gen := p.handleGen, live := true }
+
 /-! ### Checked element-level accesses -/
 
 /-- read slot `i` *as an element* (destructor, clone, downcast, bit-copy of a value) -/
